@@ -68,6 +68,11 @@ def arrays(tier="quick"):
 
 
 def cases(tier, seed):
+    from .. import produced
+    return _cases(tier, seed) + produced.case_list()
+
+
+def _cases(tier, seed):
     out = []
     items = list(arrays(tier))
     for i0 in range(0, len(items), 6):
@@ -181,6 +186,9 @@ def run_expblocks(case, R):
 
 
 def run_case(case, R):
+    if case.get("k") == "produced":
+        from .. import produced
+        return produced.run(R, ID, case["i0"], case["i1"])
     if case["k"] == "expblocks":
         return run_expblocks(case, R)
     if case.get("wide"):
